@@ -48,3 +48,46 @@ macro_rules! use_jemalloc {
         static GLOBAL: $crate::jemalloc::Jemalloc = $crate::jemalloc::Jemalloc;
     };
 }
+
+extern "C" {
+    fn dup(fd: i32) -> i32;
+    fn dup2(a: i32, b: i32) -> i32;
+    fn close(fd: i32) -> i32;
+}
+
+/// While alive, file descriptor 2 points at /dev/null: the code under check reports every segment it cannot decode
+/// with `eprintln!`, which a damage sweep turns into hundreds of thousands of lines. `VERIF_SHOW_STDERR=1` disables it.
+pub struct StderrGag {
+    saved: i32,
+}
+
+impl StderrGag {
+    pub fn new() -> Self {
+        if std::env::var("VERIF_SHOW_STDERR").is_ok() {
+            return StderrGag { saved: -1 };
+        }
+        use std::os::fd::AsRawFd;
+        let saved = unsafe { dup(2) };
+        if let Ok(f) = std::fs::OpenOptions::new().write(true).open("/dev/null") {
+            unsafe { dup2(f.as_raw_fd(), 2) };
+        }
+        StderrGag { saved }
+    }
+}
+
+impl Default for StderrGag {
+    fn default() -> Self {
+        Self::new()
+    }
+}
+
+impl Drop for StderrGag {
+    fn drop(&mut self) {
+        if self.saved >= 0 {
+            unsafe {
+                dup2(self.saved, 2);
+                close(self.saved);
+            }
+        }
+    }
+}
